@@ -1,8 +1,78 @@
-import SLModel.Drv.Util
+import SLModel.Drv.Doc
+import SLModel.Core.Contents
 open Lean
 namespace SL.Drv.C04
+open SL.Drv SL.Drv.DocJ SL.Doc SL.Contents
 
-/-- stub: no model operations for C04 yet -/
-def handle (_req : Json) : Except String Json := .error "C04: not implemented"
+abbrev D := J String
+
+def cfgOf (s : Schema String) : Cfg D :=
+  { proj := project s, safe := compactSafe s, reingestOk := ingestOk s }
+
+def callOf (s : Schema String) (j : Json) : Except String (Call String D) := do
+  let op ← getStr j "op"
+  let h := getNatD j "h" 0
+  match op with
+  | "new" => return .newWriter h
+  | "add" =>
+    let d := toJ (← j.getObjVal? "doc")
+    match docId s d with
+    | some i => return .add h i d (getNatD j "size" 1)
+    | none => throw "add: document without string id"
+  | "del" => return .del h (← getStr j "id") (getNatD j "size" 1)
+  | "commit" => return .commit h
+  | "rollback" => return .rollback h
+  | "drop" => return .dropWriter h
+  | "compact" => return .compact
+  | "reopen" => return .reopen
+  | _ => throw s!"unknown call {op}"
+
+def opJson : Op String D → Json
+  | .add i _ => Json.arr #[true, i]
+  | .del i => Json.arr #[false, i]
+
+def resJson : Res → Json
+  | .ok => "ok" | .noHandle => "no_handle" | .refused => "refused" | .failed => "failed"
+
+def contentsJson (c : List (String × D)) : Json :=
+  Json.arr (c.map (fun p => Json.arr #[p.1, fromJ p.2])).toArray
+
+def stateJson (st : St String D) (r : Res) (sp : Spec.St String D) : Json :=
+  Json.mkObj [
+    ("res", resJson r),
+    ("queues", Json.arr (st.handles.map (fun p =>
+        Json.arr #[(p.1 : Json), Json.arr (p.2.queue.map opJson).toArray])).toArray),
+    ("spec_queues", Json.arr (sp.handles.map (fun p =>
+        Json.arr #[(p.1 : Json), Json.arr (p.2.queue.map opJson).toArray])).toArray),
+    ("contents", contentsJson (abs st.segs)),
+    ("spec_contents", contentsJson sp.committed),
+    ("segments", (st.segs.length : Nat)),
+    ("tombstones", ((st.segs.map (fun s => s.deleted.length)).foldl (fun (a b : Nat) => a + b) 0 : Nat))]
+
+def runAll (cfg : Cfg D) (st : St String D) (sp : Spec.St String D) :
+    List (Call String D) → List Json
+  | [] => []
+  | c :: cs =>
+    let r := step cfg st c
+    let sp' := Spec.step cfg.proj sp c
+    stateJson r.1 r.2 sp' :: runAll cfg r.1 sp' cs
+
+/-- `{"op":"run","mem":b,"schema":…,"calls":[…]}` → `{"steps":[…]}` (state after every call, from
+the mechanism model `SL.Contents.step` and the spec `SL.Contents.Spec.step`);
+`{"op":"project","schema":…,"doc":…}` → `{"stored":…,"ingest_ok":b}` -/
+def handle (req : Json) : Except String Json := do
+  let op ← getStr req "op"
+  let s := schemaOf (← req.getObjVal? "schema")
+  match op with
+  | "run" =>
+    let mem := getBoolD req "mem" false
+    let calls ← (getArrD req "calls").toList.mapM (callOf s)
+    return Json.mkObj [("steps", Json.arr (runAll (cfgOf s) (init mem) (Spec.init mem) calls).toArray),
+      ("safe", compactSafe s)]
+  | "project" =>
+    let d := toJ (← req.getObjVal? "doc")
+    return Json.mkObj [("stored", fromJ (project s d)), ("ingest_ok", ingestOk s d),
+      ("stored_ingest_ok", ingestOk s (project s d)), ("safe", compactSafe s)]
+  | _ => throw s!"C04: unknown op {op}"
 
 end SL.Drv.C04
